@@ -1059,14 +1059,14 @@ def plan(tier, seed):
     tasks.append(("biglist", {"ns": [0, 1, 254, 255, 256, 257], "modes": ["plain", "items", "decode"], "lbs": [0, 1, 2]}))
     if quick:
         tasks.append(("header", {"mode": "sampled", "n": 60000}))
+    else:
+        for i in range(16):
+            tasks.append(("header", {"mode": "all", "shard": i, "of": 16}))
     per_b = 700 if quick else 12000
     per_d = 450 if quick else 12000
     for i in range(16):
         tasks.append(("build", {"shard": i, "n": per_b}))
         tasks.append(("decode", {"shard": i, "n": per_d}))
-    if not quick:
-        for i in range(16):
-            tasks.append(("header", {"mode": "all", "shard": i, "of": 16}))
     return tasks
 
 
